@@ -41,7 +41,12 @@ func Race() {
 		p.s, _ = p.f.GetSession("p0")
 		procs[i] = p
 	}
-	start := vx.Choice("start", vx.Param("states"))
+	start := 0
+	if o := vx.Param("only_state"); o > 0 {
+		start = o - 1 // experiments / split runs: one start state per run
+	} else {
+		start = vx.Choice("start", vx.Param("states"))
+	}
 	// the last process may be cold (started after the keys were created) while the others are warm
 	lastCold := start != stCold && vx.Choice("last_process_cold", 2) == 1
 	t0, _ := vx.Now()
